@@ -1,0 +1,27 @@
+//go:build verif
+
+package extendeddaemonsetreplicaset
+
+import (
+	"github.com/go-logr/logr"
+	corev1 "k8s.io/api/core/v1"
+	"k8s.io/apimachinery/pkg/runtime"
+	"k8s.io/client-go/util/flowcontrol"
+	generator "k8s.io/kube-state-metrics/v2/pkg/metric_generator"
+	"sigs.k8s.io/controller-runtime/pkg/client"
+
+	datadoghqv1alpha1 "github.com/DataDog/extendeddaemonset/api/v1alpha1"
+	"github.com/DataDog/extendeddaemonset/controllers/extendeddaemonsetreplicaset/strategy"
+)
+
+func VerifCreatePods(logger logr.Logger, c client.Client, scheme *runtime.Scheme, affinity bool, rs *datadoghqv1alpha1.ExtendedDaemonSetReplicaSet, nodes []*strategy.NodeItem) []error {
+	return createPods(logger, c, scheme, affinity, rs, nodes)
+}
+
+func VerifDeletePods(logger logr.Logger, c client.Client, podByNode map[*strategy.NodeItem]*corev1.Pod, nodes []*strategy.NodeItem) []error {
+	return deletePods(logger, c, podByNode, nodes)
+}
+
+func (r *Reconciler) VerifSetFailedPodsBackOff(b *flowcontrol.Backoff) { r.failedPodsBackOff = b }
+
+func VerifMetricFamilies() []generator.FamilyGenerator { return generateMetricFamilies() }
